@@ -182,6 +182,61 @@ def producer_consumer_grid():
                 yield ("doc", "pcb:%s:%s:%s" % (vn, pn, cn)), pre + [("let", "v", pe), ("let", "r", ce)]
 
 
+def function_result_use_grid():
+    """let f = func (p) => BODY; let r = f(ARG); let u = USE(r): what a function returns is used for
+    what it is. Bodies hand the argument to map / filter / copy / select, narrow it in one select
+    arm only, or guard an optional field. (Reported by a seeding agent on the unchanged tree.)"""
+    P = SYM("p")
+    one = I(1)
+    kv = ("func", ["k", "v"], L(SYM("k"), SYM("v")))
+    bodies = [
+        ("filter-kv-over-p", ("filter", ("func", ["k", "v"], B(">", SYM("v"), one)), P)),
+        ("map-kv-over-p", ("map", kv, P)),
+        ("map-c-over-p", ("map", ("func", ["c"], B("+", SYM("c"), SYM("c"))), P)),
+        ("filter-c-over-p", ("filter", ("func", ["c"], B("!=", SYM("c"), S("a"))), P)),
+        ("map-x-over-p", ("map", ("func", ["x"], B("+", SYM("x"), one)), P)),
+        ("p{a=2}", ("copy", P, [("a", I(2))])),
+        ("p{z=1}", ("copy", P, [("z", one)])),
+        ("narrowed-per-arm", ("select", B("is", P, S("str")), I(0), [("true", B("+", P, S("s"))), ("false", B("+", P, one))])),
+        ("narrowed-per-arm-tuple", ("select", B("is", P, S("tuple")), I(0), [("true", B(".", P, SYM("a"))), ("false", B("+", P, one))])),
+        ("optional-field-guard", ("select", B("in", S("opt"), P), I(0), [("true", B(".", P, SYM("opt")))])),
+        ("optional-field-guard-sym", ("select", B("in", SYM("opt"), P), I(0), [("true", B(".", P, SYM("opt")))])),
+        ("p", P), ("[p]", L(P)), ("{x=p}", T(("x", P))),
+    ]
+    mod_out = ("module", [("a", one)], B("+", B(".", SYM("mod"), SYM("a")), one), [("let", "q", one)])
+    mod_plain = ("module", [("a", one)], None, [("let", "v", B(".", SYM("mod"), SYM("a")))])
+    args = [("int", one), ("str", S("ab")), ("list", L(one, I(2))), ("tuple-ab", T(("a", one), ("b", I(2)))), ("tuple-opt", T(("opt", I(5)))), ("tuple-other", T(("other", one))),
+            ("module-with-out", mod_out), ("module", mod_plain)]
+    R = SYM("r")
+    uses = [("bare", R), (".a", B(".", R, SYM("a"))), (".b+1", B("+", B(".", R, SYM("b")), one)), (".0", B(".", R, I(0))), ("+1", B("+", R, one)), ("+str", B("+", R, S("x"))),
+            (".v", B(".", R, SYM("v"))), (".x", B(".", R, SYM("x")))]
+    for bn, body in bodies:
+        for an, arg in args:
+            for un, use in uses:
+                yield ("doc", "fuse:%s(%s):%s" % (bn, an, un)), [("let", "f", ("func", ["p"], body)), ("let", "r", ("call", SYM("f"), [arg])), ("let", "u", use)]
+
+
+def copy_override_grid():
+    """base{f = NEW}.f...: a copy that replaces a field with a value of another (wider) shape, then a
+    selection that only the new value supports; also through self."""
+    one = I(1)
+    olds = [("empty-tuple", T()), ("tuple-a", T(("a", one))), ("int", one), ("list", L(one)), ("null", ("null",))]
+    news = [("tuple-ab", T(("a", one), ("b", I(2))), [B(".", SYM("n"), SYM("b")), B("+", B(".", SYM("n"), SYM("a")), one)]),
+            ("tuple-nested", T(("a", T(("c", one)))), [B(".", B(".", SYM("n"), SYM("a")), SYM("c"))]),
+            ("list-2", L(one, I(2)), [B("+", B(".", SYM("n"), I(1)), one)]),
+            ("str", S("s"), [B("+", SYM("n"), S("x"))]),
+            ("self-extended", ("copy", B(".", SYM("self"), SYM("f")), [("e", I(2))]), [B(".", SYM("n"), SYM("e"))])]
+    for on, old in olds:
+        for nn, new, uses in news:
+            if nn == "self-extended" and on not in ("empty-tuple", "tuple-a"):
+                continue
+            for i, use in enumerate(uses):
+                yield ("doc", "copyover:%s->%s:%d" % (on, nn, i)), [("let", "base", T(("f", old), ("g", one))), ("let", "d", ("copy", SYM("base"), [("f", new)])),
+                                                                    ("let", "n", B(".", SYM("d"), SYM("f"))), ("let", "u", use)]
+                yield ("doc", "copyover-inline:%s->%s:%d" % (on, nn, i)), [("let", "base", T(("f", old), ("g", one))),
+                                                                           ("let", "n", B(".", ("copy", SYM("base"), [("f", new)]), SYM("f"))), ("let", "u", use)]
+
+
 def select_arm_grid():
     """A select whose arms have shapes that are alike but not the same — functions of one arity
     that return different things, a tuple and a wider tuple, a list and a wider list — x the arm
@@ -193,6 +248,22 @@ def select_arm_grid():
              ("text", ("func", ["v"], S("s"))), ("same", ("func", ["v"], V))]
     R = SYM("r")
     uses = [("bare", R), (".fst", B(".", R, SYM("fst"))), (".0", B(".", R, I(0))), ("+1", B("+", R, one)), ("+str", B("+", R, S("x")))]
+    first = ("func", ["a", "b"], SYM("a"))
+    second = ("func", ["a", "b"], SYM("b"))
+    for key in ("x", "y", "z"):
+        for un, use in uses:
+            yield ("doc", "selarm:func2:%s:%s" % (key, un)), [("let", "mode", S(key)), ("let", "pick", ("select", SYM("mode"), first, [("x", first), ("y", second)])),
+                                                            ("let", "r", ("call", SYM("pick"), [I(1), S("s")])), ("let", "u", use)]
+            yield ("doc", "selarm:func2r:%s:%s" % (key, un)), [("let", "mode", S(key)), ("let", "pick", ("select", SYM("mode"), second, [("x", second), ("y", first)])),
+                                                             ("let", "r", ("call", SYM("pick"), [I(1), S("s")])), ("let", "u", use)]
+    # a module picked by select and instantiated
+    m1 = ("module", [("a", one)], None, [("let", "v", B(".", SYM("mod"), SYM("a")))])
+    m2 = ("module", [("a", one)], None, [("let", "v", B("+", B(".", SYM("mod"), SYM("a")), one))])
+    m3 = ("module", [("a", one)], B("+", B(".", SYM("mod"), SYM("a")), one), [("let", "q", one)])
+    for key in ("one", "two", "zz"):
+        for mb, use in ((m2, B("+", B(".", SYM("i"), SYM("v")), one)), (m3, B("+", SYM("i"), one))):
+            yield ("doc", "selarm:module:%s" % key), [("let", "m1", m1 if mb is m2 else m3), ("let", "m2", mb), ("let", "m", ("select", S(key), SYM("m1"), [("one", SYM("m1")), ("two", SYM("m2"))])),
+                                                     ("let", "i", ("copy", SYM("m"), [("a", I(5))])), ("let", "x", use)]
     for (n1, f1), (n2, f2) in itertools.permutations(funcs, 2):
         for key, default in (("a", None), ("b", None), ("z", "first"), ("z", "second")):
             arms = [("a", f1), ("b", f2)]
@@ -281,8 +352,13 @@ RAW_FORMS += [
     ("import-nested-with-decoy", 'let a = import "./c07lib/a.ucg";\nlet r = a.v;'),
     ("import-nested-with-decoy-inline", 'let r = (import "./c07lib/a.ucg").v;'),
     ("import-nested-missing-field-in-decoy", 'let a = import "./c07lib/c.ucg";\nlet r = a.v;'),
+    ("select-between-imports", 'let cfg = select ("prod", import "./c07lib/b.ucg") => {prod = import "./c07lib/d.ucg"};\nlet x = cfg.only_here + 1;'),
+    ("select-between-imports-default", 'let cfg = select ("zz", import "./c07lib/b.ucg") => {prod = import "./c07lib/d.ucg"};\nlet x = cfg.val + 1;'),
+    ("std-import-with-unrelated-std-directory", 'let lists = import "std/lists.ucg";\nlet len = lists.len;\nlet n = len([1, 2]) + 1;'),
+    ("select-arm-any-after-narrowed", 'let k = "b";\nlet t = {p = 1, q = 2};\nlet inner = select (k, {a = 1}) => {a = {a = 2}};\n'
+                                      'let v = select (k, NULL) => {a = inner, b = map(func (n, x) => [n, x], t)};\nlet w = v.p + 1;'),
 ]
-RAW_FILES = {"c07lib/a.ucg": 'let b = import "./b.ucg";\nlet v = b.val + 1;\n', "c07lib/b.ucg": "let val = 41;\n", "b.ucg": 'let val = "forty-one";\n',
+RAW_FILES = {"std/lists.ucg": "let unrelated = 1;\n", "c07lib/a.ucg": 'let b = import "./b.ucg";\nlet v = b.val + 1;\n', "c07lib/b.ucg": "let val = 41;\n", "b.ucg": 'let val = "forty-one";\n',
              "c07lib/c.ucg": 'let d = import "./d.ucg";\nlet v = d.only_here;\n', "c07lib/d.ucg": "let only_here = 1;\n", "d.ucg": "let other = 2;\n",
              "c07data.txt": "41", "c07data.json": '{"v": 41}', "c07num.json": "41", "c07list.json": "[41, 42]", "c07data.yaml": "v: 41\n", "c07data.toml": "v = 41\n"}
 
@@ -518,6 +594,10 @@ def run(ctx):
             yield ("doc", d, st)
         for d, st in callback_name_grid():
             yield ("doc", d, st)
+        for d, st in function_result_use_grid():
+            yield ("doc", d, st)
+        for d, st in copy_override_grid():
+            yield ("doc", d, st)
         for op in c01.OPS:
             for a in range(c01.NLEAVES):
                 for b in range(c01.NLEAVES):
@@ -547,7 +627,7 @@ def run(ctx):
     # the same comparison with --no-strict on both sides (missing fields and unset variables are
     # NULL there): documented forms, the three grids, S1 and S2
     def ns_descs():
-        for d, st in itertools.chain(documented_forms(), function_grid(), nested_call_grid(), producer_consumer_grid(), select_arm_grid(), callback_name_grid()):
+        for d, st in itertools.chain(documented_forms(), function_grid(), nested_call_grid(), producer_consumer_grid(), select_arm_grid(), callback_name_grid(), function_result_use_grid(), copy_override_grid()):
             if d[1].startswith("fgrid2:"):
                 continue
             yield ("doc", d, st)
